@@ -15,6 +15,7 @@ INVARIANT Inv_DuplicateRule
 INVARIANT Inv_DisjointShaping
 INVARIANT Inv_OrderRule
 INVARIANT Inv_IdentifyOnlySame
+INVARIANT Inv_MergeAllSmall
 INVARIANT NegReport
 INVARIANT Witness
 INVARIANT Witness2
